@@ -70,6 +70,18 @@ Lemma stream_closed_machine s i x :
   (dropped x = false -> got x = expected_stream (hist s) (reg_at x) (read_at x) (unsub_at x)).
 Proof. intros [ls H]. exact (stream_closed fsm_cfg ls s i x H). Qed.
 
+(* while nothing was dropped for this subscriber, nothing is lost: everything it is owed has been
+   received or is in flight, in order *)
+Lemma stream_in_flight_machine s i x :
+  mreach s -> nth_error (subs s) i = Some x -> dropped x = false -> sg x = SLive ->
+  got x ++ wch x ++ olist (hand x) ++ bch x ++ (if memn i (pend s) then [cur s] else []) =
+  expected_stream (hist s) (reg_at x) (read_at x) (endp (length (hist s)) x).
+Proof.
+  intros [ls H] Hx Hd Hl. apply inv_reach in H as [_ Hs]. specialize (Hs i x Hx).
+  unfold sub_ok, flow, head_part in Hs. rewrite Hl in Hs.
+  destruct Hs as (_ & _ & _ & _ & _ & _ & _ & _ & _ & Hf). exact (Hf Hd).
+Qed.
+
 Lemma closed_after_cancel_machine s i x :
   mreach s -> nth_error (subs s) i = Some x -> wclosed x = true -> cancelled x = true.
 Proof. intros [ls H]. exact (closed_only_after_cancel fsm_cfg ls s i x H). Qed.
